@@ -19,6 +19,14 @@ import (
 var plainParts = render.Parts{Prologue: "package p", Union: "\n\ts string\n\tt string\n\tn int\n\tm int\n", Epilogue: "\n// end\n"}
 
 var families = gen.Families()
+var escapeFamilies = gen.EscapeFamilies()
+
+func cloneGrammar(g *spec.Grammar) *spec.Grammar {
+	b, _ := json.Marshal(g)
+	var c spec.Grammar
+	json.Unmarshal(b, &c)
+	return &c
+}
 
 var stdCfg = gen.RandCfg{MaxT: 5, MaxNT: 5, MaxAlt: 3, MaxRhs: 4, Lits: true, Prec: true}
 var bigCfg = gen.RandCfg{MaxT: 6, MaxNT: 7, MaxAlt: 3, MaxRhs: 4, Lits: true, Prec: true}
